@@ -1,0 +1,66 @@
+//go:build verif
+
+package arp_spoofer
+
+import (
+	"sync/atomic"
+	"time"
+
+	"github.com/irai/packet"
+)
+
+// Verification hooks: compiled only with -tags verif. They expose unexported
+// state to the model-based verification harness and never change behaviour
+// unless a harness installs a sink.
+
+// VerifEmit, when set by a test harness, receives one event per instrumented
+// linearisation point (called with the handler mutex held where the code holds it).
+var VerifEmit func(ev string, kv ...interface{})
+
+// VerifGate, when set by a test harness, is called at named scheduling points of a
+// spoof loop (never with a mutex held) and may block.
+var VerifGate func(name string, loop int)
+
+// VerifTicker, when set by a test harness, replaces the 6 second ticker channel of a new spoof loop.
+var VerifTicker func(c <-chan time.Time, loop int) <-chan time.Time
+
+var verifLoopSeq int32
+
+func verifEmit(ev string, kv ...interface{}) {
+	if f := VerifEmit; f != nil {
+		f(ev, kv...)
+	}
+}
+
+func verifGate(name string, loop int) {
+	if f := VerifGate; f != nil {
+		f(name, loop)
+	}
+}
+
+func verifTicker(c <-chan time.Time, loop int) <-chan time.Time {
+	if f := VerifTicker; f != nil {
+		return f(c, loop)
+	}
+	return c
+}
+
+// verifLoopStart numbers the spoof loop instances of the process.
+func verifLoopStart(addr packet.Addr) int {
+	id := int(atomic.AddInt32(&verifLoopSeq, 1))
+	verifEmit("arp.loop", id, addr)
+	return id
+}
+
+func verifLoopDone(loop int) { verifEmit("arp.done", loop) }
+
+// VerifHuntList returns a snapshot of the hunt list.
+func (h *Handler) VerifHuntList() []packet.Addr {
+	h.arpMutex.Lock()
+	defer h.arpMutex.Unlock()
+	list := make([]packet.Addr, 0, len(h.huntList))
+	for _, v := range h.huntList {
+		list = append(list, packet.Addr{MAC: packet.CopyMAC(v.MAC), IP: v.IP})
+	}
+	return list
+}
